@@ -2402,6 +2402,23 @@ def dependency_setters(a: A, ctx):
             via_facade = [e for e in evs if not e.used and e.kind in ('setter', 'call') and
                           e.name in (MIRROR_PROP[rel], 'append', 'remove') and _recv_base(e) is not None and
                           elem_class(a, f, _recv_base(e), e.cn)[0] is not None]
+            reentrant = []
+            for e in via_facade:
+                k, fo = elem_class(a, f, _recv_base(e), e.cn)
+                tg = [t for t in (e.ci.targets if e.ci is not None else []) if t is not None]
+                if k is not None and k[0] == 'live' and k[1] == FLD and fo is not None and \
+                        any(fld == FLD for t in tg for fld, _ in a.eff.writes_star(t)):
+                    reentrant.append((e, fo))
+            if reentrant:
+                e, fo = reentrant[0]
+                o.refute(f, e.node, e.node, f"{what}: `{src(e.node)[:60]}` is called for every element of the LIVE list "
+                                            f"`{src(fo.iter)}`; it goes through the other task's {MIRROR_PROP[rel]} setter, which edits "
+                                            f"{unmangle(FLD)} of its old/new elements in place - i.e. this very list while it is being "
+                                            f"iterated: every second element is skipped and stays linked on the mirror side")
+                for e2 in via_facade:
+                    e2.used = True
+                a.leftovers(o, f, what)
+                continue
             if (not rem_ok or not add_ok) and via_facade:
                 o.undecided(f, via_facade[0].node, via_facade[0].node,
                             f"{what}: the mirror side is updated through `{src(via_facade[0].node)[:60]}` (the other task's own "
